@@ -107,7 +107,7 @@ func vfRunC08Case(env *vfEnv, part *vfPart, caseNo int) {
 	dirA := filepath.Join(base, "a")
 	cfg := vfInstCfg{Manual: true, NDb: 3}
 	cfg.DBConcurrent = uint([]int{1, 2, 2, 8}[rng.Intn(4)])
-	cfg.FastKeys = uint([]int{256, 4096, 65536}[rng.Intn(3)])
+	cfg.FastKeys = uint([]int{1, 4, 256, 65536}[rng.Intn(4)])
 	cfg.AofTime = uint([]int{0, 0, 1, 2}[rng.Intn(4)])
 	cfg.AofBuf = uint([]int{64, 128, 4096}[rng.Intn(3)])
 	cfg.RewriteSize = uint([]int{12 + 64*15, 12 + 64*40, 8 << 20, 8 << 20}[rng.Intn(4)])
